@@ -66,6 +66,8 @@ class ExplorerScriptSsbDecompiler:
     indent: int
     _line_number: int
     labels_already_printed: list[int] = []
+    # IDs of the labels that the written text jumps to or calls
+    labels_referenced: list[int] = []
     smb: SourceMapBuilder | None
     performance_progress_list_var_name: str
     dungeon_mode_constants: DungeonModeConstants
@@ -95,6 +97,7 @@ class ExplorerScriptSsbDecompiler:
         self.indent = 0
         self._line_number = 1
         self.labels_already_printed = []
+        self.labels_referenced = []
         self.smb = None
         self.performance_progress_list_var_name = performance_progress_list_var_name
         self.dungeon_mode_constants = dungeon_mode_constants
@@ -105,6 +108,7 @@ class ExplorerScriptSsbDecompiler:
         self._output = ""
         self.indent = 0
         self.labels_already_printed = []
+        self.labels_referenced = []
         self._line_number = 1
         self.smb = SourceMapBuilder()
 
@@ -149,6 +153,12 @@ class ExplorerScriptSsbDecompiler:
                     self.named_coroutines[r_id] if r_id in self.named_coroutines else None,
                 )
                 RoutineWriteHandler(self, r_id, r_info, r_graph).write_content()
+
+            # Every label that is jumped to must have been written. This is not the case for a label that is
+            # referenced from another routine, but can not be reached from the start of its own routine.
+            labels_not_written = [x for x in self.labels_referenced if x not in self.labels_already_printed]
+            if len(labels_not_written) > 0:
+                raise ValueError(f"The labels {labels_not_written} are jumped to, but were not written.")
 
             return self._output, self.smb.build()
 
@@ -205,9 +215,11 @@ class ExplorerScriptSsbDecompiler:
         # Depending on what the previous operation was, this has to be printed differently
         if not isinstance(previous_op, SsbLabelJump):
             # We need a jump now. We didn't have one but now we will.
+            self.labels_referenced.append(label_id)
             self.write_stmnt(f"jump @label_{label_id};")
         elif previous_op.get_marker() is None:
             # Normal jump, just print that
+            self.labels_referenced.append(label_id)
             self.write_stmnt(f"jump @label_{label_id};")
         elif isinstance(previous_op.get_marker(), ForeverContinue) or isinstance(
             previous_op.get_marker(), ForeverBreak
@@ -217,6 +229,7 @@ class ExplorerScriptSsbDecompiler:
             pass
         else:
             # Jump as part of a control structure
+            self.labels_referenced.append(label_id)
             self.write_stmnt(f"jump @label_{label_id};")
 
     def source_map_add_opcode(self, op_offset: int, continues_line: bool = False) -> None:
